@@ -80,7 +80,15 @@ impl Command {
                 }
             }
 
-            paths = new_paths;
+            // Different choices can lead to the same path (e.g. `[A]:[A]`).
+            let mut unique_paths: Vec<CommandPath> = Vec::new();
+            for path in new_paths {
+                if !unique_paths.contains(&path) {
+                    unique_paths.push(path);
+                }
+            }
+
+            paths = unique_paths;
         }
 
         paths
